@@ -154,14 +154,16 @@ fn exotic_module_x(src: &mut Src, max_depth: usize) -> String {
     s
 }
 
-const M_TYPES: [&str; 30] = [
+const M_TYPES: [&str; 33] = [
+    "SEQUENCE { a CHOICE { a INTEGER, b BOOLEAN }, b BOOLEAN OPTIONAL }", "CHOICE { a SEQUENCE { a INTEGER }, b NULL }", "SEQUENCE { a SEQUENCE OF CHOICE { a INTEGER } }",
     "INTEGER", "INTEGER { a(1), b(2) }", "INTEGER (0..255)", "BOOLEAN", "NULL", "BIT STRING", "BIT STRING { a(0), b(3) }", "OCTET STRING", "IA5String",
     "UTF8String", "BMPString", "NumericString", "OBJECT IDENTIFIER", "RELATIVE-OID", "ENUMERATED { a, b, c }", "ENUMERATED { a(1), ..., b(5) }",
     "SEQUENCE { a INTEGER, b BOOLEAN OPTIONAL }", "SEQUENCE { }", "SET { a INTEGER }", "SEQUENCE OF INTEGER", "SET OF BOOLEAN", "CHOICE { a INTEGER, b NULL }",
     "REAL", "GeneralizedTime", "UTCTime", "ANY", "Cyc-A", "Cyc-B", "Undefined-Type", "SEQUENCE OF SEQUENCE { a Cyc-A }",
 ];
 
-const M_VALUES: [&str; 44] = [
+const M_VALUES: [&str; 48] = [
+    "{ a a:5 }", "{ a a:5, b TRUE }", "a:{ a 1 }", "{ a { a:1, a:2 } }",
     "5", "-5", "0", "99999999999999999999999999999999999999999", "-170141183460469231731687303715884105729", "TRUE", "FALSE", "NULL", "\"str\"", "\"\"",
     "\"a\"\"b\"", "'0101'B", "'AF'H", "''H", "''B", "'A'H", "'101'B", "{ a }", "{ a, b }", "{ }", "{ 1 2 3 }", "{ iso standard 1 }", "{ a 1, b TRUE }",
     "{ a 1 }", "{ 1, 2 }", "{ { a 1 } }", "a:5", "b:NULL", "a:a:5", "a", "b", "w", "v0", "cyc-a", "1.5", "{ mantissa 1, base 2, exponent 3 }", "PLUS-INFINITY",
@@ -186,13 +188,21 @@ fn mismatch_module(src: &mut Src) -> String {
         let ty = M_TYPES[src.pick(M_TYPES.len())];
         let con = if src.chance(50) { M_CONS[src.pick(M_CONS.len())] } else { "" };
         let val = M_VALUES[src.pick(M_VALUES.len())];
+        // the names take part too: hoisted inner types and value constructors are named after
+        // the type, whose Rust name differs when it has a hyphen or is the one title-case keyword
+        let tn = match src.weighted(&[6, 3, 1]) {
+            0 => format!("Ty{i}"),
+            1 => format!("Hy-Ty{i}"),
+            _ => "Self".to_string(),
+        };
+        let tn = tn.as_str();
         match src.pick(6) {
-            0 => s.push_str(&format!("Ty{i} ::= {ty} {con}\n")),
+            0 => s.push_str(&format!("{tn} ::= {ty} {con}\n")),
             1 => s.push_str(&format!("v{i} {ty} {con} ::= {val}\n")),
-            2 => s.push_str(&format!("Ty{i} ::= {ty} {con}\nv{i} Ty{i} ::= {val}\n")),
-            3 => s.push_str(&format!("Ty{i} ::= SEQUENCE {{ f {ty} {con} DEFAULT {val}, g Cyc-A OPTIONAL }}\n")),
-            4 => s.push_str(&format!("Ty{i} ::= {ty}\nAl{i} ::= Ty{i} {con}\nv{i} Al{i} ::= {val}\nx{i} Al{i} ::= v{i}\n")),
-            _ => s.push_str(&format!("Ty{i} ::= SEQUENCE OF {ty} {con}\nv{i} Ty{i} ::= {{ {val}, {val} }}\n")),
+            2 => s.push_str(&format!("{tn} ::= {ty} {con}\nv{i} {tn} ::= {val}\n")),
+            3 => s.push_str(&format!("{tn} ::= SEQUENCE {{ f {ty} {con} DEFAULT {val}, g Cyc-A OPTIONAL }}\n")),
+            4 => s.push_str(&format!("{tn} ::= {ty}\nAl{i} ::= {tn} {con}\nv{i} Al{i} ::= {val}\nx{i} Al{i} ::= v{i}\n")),
+            _ => s.push_str(&format!("{tn} ::= SEQUENCE OF {ty} {con}\nv{i} {tn} ::= {{ {val}, {val} }}\n")),
         }
     }
     s.push_str("END\n");
